@@ -284,6 +284,7 @@ fn probe_keys(r: &mut Rng, m: &Set, pool: &[Key]) -> (Vec<Key>, Vec<Key>) {
     let mut nm: Vec<Key> = Vec::new();
     let sample: Vec<Key> = if members.len() <= 20 { members.clone() } else { (0..20).map(|_| r.pick(&members).clone()).collect() };
     for k in sample {
+        if k.len() > 4096 { nm.push(k[..k.len() - 1].to_vec()); let mut e = k.clone(); e.push(r.next() as u8); nm.push(e); nm.push(near(r, &k)); continue; }     // every probe of such a key walks > 4096 nodes
         if k.len() <= 10 { for l in 0..k.len() { nm.push(k[..l].to_vec()); } } else { for l in [0, 1, k.len() / 2, k.len() - 1] { nm.push(k[..l].to_vec()); } }
         for b in [0u8, 0xff, *k.last().unwrap_or(&b'a'), r.next() as u8] { let mut e = k.clone(); e.push(b); nm.push(e); }
         if !k.is_empty() { nm.push(k[1..].to_vec()); let mut d = k.clone(); d.insert(0, k[0]); nm.push(d); }
@@ -559,10 +560,168 @@ fn directed_case(c: &mut Case, t: &Tgt, name: &str) -> Res {
     replay(c, s.as_mut(), &p, sh)
 }
 
+
+// ---------------------------------------------------------------------------------------------------------------
+// huge_* families: sizes just above the 16/17/20-bit limits (state ids, key lengths, byte offsets, element counts, capacities)
+// ---------------------------------------------------------------------------------------------------------------
+/// Cost model of a target for large inputs (what is affordable below ~2 s per case):
+/// the inherent `ZiporaTrie::insert` recomputes its statistics over all nodes on every call (the legacy wrappers always go through it),
+/// the compressed-sparse insert scans all state ids, LOUDS storage is a linear record list, the sparse DAWG table is scanned per state on build.
+#[derive(Clone, Copy, PartialEq, Debug)]
+enum Cost { Pat, Da, Sp, Lo, Crit, WDa, WSp, WLo, DawgIns, DawgBuild, Simple, Par }
+fn cost_of(conf: &Conf) -> Cost {
+    match conf {
+        Conf::Zt(cfg) => match cfg.trie_strategy { TrieStrategy::Patricia { .. } => Cost::Pat, TrieStrategy::DoubleArray { .. } => Cost::Da, TrieStrategy::CompressedSparse { .. } => Cost::Sp, TrieStrategy::Louds { .. } => Cost::Lo, TrieStrategy::CriticalBit { .. } => Cost::Crit },
+        Conf::PatAlias | Conf::CritAlias => Cost::Pat,
+        Conf::Dat(_) | Conf::DatBuilder(_) => Cost::WDa, Conf::Nlt(_) | Conf::NltBuilder => Cost::WLo, Conf::Cst(..) => Cost::WSp,
+        Conf::Dawg(_, false) => Cost::DawgIns, Conf::Dawg(_, true) => Cost::DawgBuild, Conf::Simple => Cost::Simple, Conf::ParNew | Conf::ParBuilder(..) => Cost::Par,
+    }
+}
+const HUGE_CAPS: &[usize] = &[65537, 131073, 196609, 262145];
+
+/// Which huge families run on which target (L long keys, M many keys, F two-level 256-way fan-out, B many long records).
+fn huge_fams(id: &str) -> &'static [&'static str] {
+    const L: &str = "huge_long_key"; const M: &str = "huge_many_keys"; const F: &str = "huge_fanout"; const B: &str = "huge_label_bytes";
+    match id {
+        "zt/default" => &[L, M, F, B], "zt/cache_optimized" => &[B], "zt/hand_patricia" => &[F], "alias/patricia_trie" => &[M],
+        "zt/concurrent_hp" => &[F], "zt/hand_double_array" => &[L, M], "zt/sparse_optimized" => &[L, M], "zt/hand_sparse" => &[L, F],
+        "zt/space_optimized" => &[B, M], "zt/hand_louds" => &[B, F],
+        "w/double_array" => &[M], "w/double_array_builder" => &[L], "w/compressed_sparse" => &[L, M], "w/nested_louds" => &[B, M], "w/nested_louds_builder" => &[B],
+        "dawg/nested_insert" | "dawg/simple" => &[L, M, F], "dawg/nested_build" => &[L, M], "dawg/nested_build_insert" => &[M],
+        _ => &[],      // critical-bit stubs store nothing; ParallelLoudsTrie copies the whole trie into 17 replicas per insert
+    }
+}
+
+/// A long byte string of one of the data shapes: all-equal, short period, one dominant symbol, random, two identical halves around a pivot byte.
+fn long_string(r: &mut Rng, len: usize) -> (Key, &'static str) {
+    match r.below(5) {
+        0 => (vec![*r.pick(&[0u8, b'x', 0xff]); len], "all_equal"),
+        1 => { let p = r.urange(2, 7); let pat = r.bytes(p); ((0..len).map(|i| pat[i % p]).collect(), "periodic") }
+        2 => { let d = r.next() as u8; ((0..len).map(|_| if r.chance(9, 10) { d } else { r.next() as u8 }).collect(), "dominant90") }
+        3 => (r.bytes(len), "random"),
+        _ => { let h = (len - 1) / 2; let half = r.bytes(h); let mut x = half.clone(); x.push(r.next() as u8); x.extend_from_slice(&half); while x.len() < len { x.push(r.next() as u8); } (x, "half_c_half") }
+    }
+}
+
+/// Returns the plan and the number of automaton states it needs (for the DAWG state limit).
+fn huge_plan(r: &mut Rng, fam: &str, cost: Cost, t: &Tgt) -> Option<(Plan, usize, String)> {
+    use Op::*;
+    let mut bulk: Vec<Key> = Vec::new(); let mut ops: Vec<Op> = Vec::new(); let need; let desc;
+    let rm = t.remove && cost != Cost::Lo;      // remove() on LOUDS storage is the known no-op (covered by the mix/directed families): keep the huge LOUDS cases about insert/lookup/enumeration
+    match fam {
+        "huge_long_key" => {
+            let lens: &[usize] = match cost { Cost::Pat => &[65535, 65536, 65537, 70001], Cost::Da | Cost::WDa => &[65536, 65537, 70001], Cost::Sp | Cost::WSp => &[65536, 65537], Cost::DawgIns => &[65537, 131073, 131074], Cost::Simple => &[65537, 131073, 262145], Cost::DawgBuild => &[65535, 65537], _ => return None };
+            let l = *r.pick(lens); let (x, shape) = long_string(r, l); desc = format!("len={l} shape={shape}"); need = l + 600;
+            let c1 = x[l - 1] ^ 0x01; let e1 = r.next() as u8; let e2 = e1 ^ 0x80;
+            bulk.push(x.clone()); bulk.push(x[..l - 1].to_vec()); for cut in [65535usize, 65536, 3] { if cut < l - 1 { bulk.push(x[..cut].to_vec()); } }
+            let mut y = x[..l - 1].to_vec(); y.push(c1); bulk.push(y);                                     // sibling at the last byte: long shared prefix, differing byte at offset > 2^16
+            let mut y = x.clone(); y.push(e1); bulk.push(y); let mut y = x.clone(); y.push(e2); bulk.push(y);    // X e1 / X e2
+            if cost != Cost::Pat && cost != Cost::DawgBuild { let mut y = x[..l / 2].to_vec(); y.push(x[l / 2] ^ 0xff); y.extend((0..300).map(|i| i as u8)); bulk.push(y); }
+            bulk.push(vec![x[0] ^ 0xff, 1, 2]);
+            // probes: one byte changed at offsets 0, mid, 65535, 65536, last; truncated / extended
+            let mut probes: Vec<Key> = Vec::new();
+            for pos in [0usize, l / 2, 65534, 65535, 65536, l - 2, l - 1] { if pos < l { let mut y = x.clone(); y[pos] = y[pos].wrapping_add(1); probes.push(y); } }
+            probes.push(x[..l - 2].to_vec()); let mut y = x.clone(); y.push(e1 ^ 1); probes.push(y); let mut y = x.clone(); y.push(e1); y.push(0); probes.push(y); probes.push(x.clone());
+            r.shuffle(&mut bulk);
+            for q in &probes { ops.push(Has(q.clone())); }
+            if rm { ops.push(Rem(x[..l - 1].to_vec())); ops.push(Has(x.clone())); ops.push(Rem(x.clone())); ops.push(Rem(x[..l - 2].to_vec())); for q in probes.iter().take(4) { ops.push(Has(q.clone())); } ops.push(Ins(x.clone(), true)); }
+            ops.push(Full);
+        }
+        "huge_many_keys" => {
+            let ns: &[usize] = match cost { Cost::Pat => &[65537, 66000, 70001], Cost::Da => &[65537, 66000], Cost::DawgIns | Cost::Simple => &[65537, 100003, 131073], Cost::DawgBuild => &[65537, 66000],
+                Cost::Sp => &[12000], Cost::WSp => &[8000], Cost::Lo | Cost::WLo => &[11000], Cost::WDa => &[12000], _ => return None };
+            let n = *r.pick(ns);
+            // be3: dense big-endian counter (keys differ in the low byte first); hi: the counter's bytes reversed (siblings differ only in the last = high byte)
+            let enc = if matches!(cost, Cost::Pat | Cost::DawgBuild) { 0 } else { r.below(2) }; let off = r.below(1 << 23) as usize; let tail: &[u8] = if matches!(cost, Cost::Lo | Cost::WLo) { b"\x00z" } else { b"" };
+            let key = |i: usize| -> Key { let v = i + if enc == 0 { 0 } else { off }; let mut k = if enc == 0 { vec![(v >> 16) as u8, (v >> 8) as u8, v as u8] } else { vec![v as u8, (v >> 8) as u8, (v >> 16) as u8] }; k.extend_from_slice(tail); k };
+            let mut order: Vec<usize> = (0..n).collect(); let shuffled = r.bool(); if shuffled { r.shuffle(&mut order); }
+            desc = format!("n={n} enc={} order={}", if enc == 0 { "be3" } else { "le3" }, if shuffled { "shuffled" } else { "ascending" }); need = if enc == 0 { n + n / 256 + 600 } else { n + 65536 + 600 };
+            for &i in &order { bulk.push(key(i)); }
+            ops.push(Full);
+            if rm { let keep = *r.pick(&[257usize, 4099, 65521]); let every = if cost == Cost::Da { 16 } else { 1 };       // the double array prints DEBUG lines per transition: remove a sixteenth there
+                for &i in &order { if i % keep != 1 && i % every == 0 { ops.push(Rem(key(i))); } } ops.push(Full); }
+            for _ in 0..200 { let i = r.usize_below(n + 50); ops.push(Has(key(i))); }
+            if t.insert { for _ in 0..300 { let i = r.usize_below(n); ops.push(Ins(key(i), r.chance(29, 30))); } ops.push(Full); }
+        }
+        "huge_fanout" => {
+            let w: usize = match cost { Cost::Pat | Cost::DawgIns | Cost::Simple => 256, Cost::Da => 64, Cost::Sp | Cost::Lo | Cost::WLo => 40, Cost::WDa => 80, Cost::WSp => 30, _ => return None };
+            let pl = r.usize_below(3); let pre = r.bytes(pl); let mut firsts: Vec<u8> = (0..=255u8).collect(); r.shuffle(&mut firsts); let with_inner = r.bool();
+            desc = format!("prefix_len={pl} full_second_level_under={w} inner_keys={with_inner}"); need = 256 * w + 1000;
+            let k2 = |a: u8, b: u8| -> Key { let mut k = pre.clone(); k.push(a); k.push(b); k };
+            for &a in &firsts { if with_inner { let mut k = pre.clone(); k.push(a); bulk.push(k); } }
+            for &a in firsts.iter().take(w) { for b in 0..=255u8 { bulk.push(k2(a, b)); } }
+            if r.bool() { r.shuffle(&mut bulk); }
+            ops.push(Full);
+            if rm { // remove down to one child at both levels
+                let (a0, b0) = (firsts[r.usize_below(w)], r.next() as u8);
+                for kx in bulk.clone() { if kx != k2(a0, b0) { ops.push(Rem(kx)); } }
+                ops.push(Full); ops.push(Has(k2(a0, b0))); ops.push(Has(k2(a0, b0 ^ 1))); ops.push(Has(k2(a0 ^ 1, b0))); let mut k = pre.clone(); k.push(a0); ops.push(Has(k));
+                ops.push(Ins(k2(a0 ^ 1, b0), true)); ops.push(Rem(k2(a0, b0))); ops.push(Full);
+            } else { for _ in 0..100 { ops.push(Has(k2(r.next() as u8, r.next() as u8))); } }
+        }
+        "huge_label_bytes" => {
+            let n = match cost { Cost::Lo | Cost::WLo => *r.pick(&[300usize, 600, 1200]), Cost::Pat => 300, _ => return None };
+            let sl = r.urange(180, 200); let (sp, shape) = long_string(r, sl); desc = format!("n={n} shared_prefix={sl} shape={shape}"); need = 0;
+            for i in 0..n { let tl = if i % 7 == 0 { 255 - sl } else if i % 11 == 0 { 254 - sl } else { r.urange(1, 255 - sl) }; let mut k = sp.clone(); k.extend(r.bytes(tl)); bulk.push(k); }
+            let mut k = sp.clone(); k.extend(r.bytes(256 - sl)); bulk.push(k);          // 256 bytes: refused by the LOUDS length prefix, accepted elsewhere
+            ops.push(Full);
+            if rm && r.bool() { for kx in bulk.iter().step_by(3) { ops.push(Rem(kx.clone())); } ops.push(Full); }
+            for _ in 0..100 { let kx = r.pick(&bulk).clone(); ops.push(Has(near(r, &kx))); }
+            if t.insert { for kx in bulk.iter().step_by(5) { ops.push(Ins(kx.clone(), r.bool())); } ops.push(Full); }
+        }
+        _ => return None,
+    }
+    // the bulk goes through the builder where there is one, else through (trait) inserts; a few go through the inherent insert
+    let mut init: Vec<Key> = Vec::new();
+    if t.init != 0 || !t.insert { init = bulk; if t.init == 1 || !t.insert { init.sort(); init.dedup(); } }
+    else { let mut pre: Vec<Op> = Vec::with_capacity(bulk.len() + ops.len()); let step = (bulk.len() / 7).max(1); for (i, b) in bulk.into_iter().enumerate() { pre.push(Ins(b, i % step != step - 1)); } pre.append(&mut ops); ops = pre; }
+    if !t.insert { ops.retain(|o| !matches!(o, Ins(..))); }
+    if !rm { ops.retain(|o| !matches!(o, Rem(_))); }
+    let mut pool: Vec<Key> = ops.iter().filter_map(|o| match o { Has(x) => Some(x.clone()), _ => None }).take(64).collect(); if pool.is_empty() { pool.push(vec![0]); }
+    Some((Plan { fam: FAMS, init, ops, pool, obs: 0 }, need, desc))
+}
+
+/// The enumeration functions of the library recurse once per key byte (`collect_keys_*_recursive`); with keys of 64 KiB and more that exhausts the
+/// default 8 MiB main-thread stack (process abort, see the report). The property is about the answers, not about stack use, so the huge cases run
+/// on a thread with a large stack; a panic inside is re-raised on the caller so that `ctx.case` records it as usual.
+fn on_big_stack<T: Send>(f: impl FnOnce() -> T + Send) -> T {
+    std::thread::scope(|sc| {
+        let h = std::thread::Builder::new().stack_size(1 << 30).spawn_scoped(sc, f).expect("spawn big-stack thread");
+        match h.join() { Ok(v) => v, Err(p) => std::panic::resume_unwind(p) }
+    })
+}
+fn huge_case(c: &mut Case, t: &Tgt, fam: &str) -> Res {
+    // ZV_C05_MAIN_STACK=1 runs the case on the caller's stack instead: reproduces the stack exhaustion of the recursive enumeration (worker abort)
+    if std::env::var_os("ZV_C05_MAIN_STACK").is_some() { return huge_case_inner(c, t, fam); }
+    on_big_stack(move || huge_case_inner(c, t, fam))
+}
+
+fn huge_case_inner(c: &mut Case, t: &Tgt, fam: &str) -> Res {
+    let (mut conf, mut d) = choose(&mut c.rng, t.id)?; let cost = cost_of(&conf);
+    let Some((p, need, desc)) = huge_plan(&mut c.rng, fam, cost, t) else { return Ok(()) };
+    // capacities just above powers of two; DAWG state limit / table kind that fits the plan
+    match &mut conf {
+        Conf::Zt(cfg) => { let cap = *c.rng.pick(HUGE_CAPS);
+            if let TrieStrategy::DoubleArray { initial_capacity, .. } = &mut cfg.trie_strategy { *initial_capacity = cap; d.push_str(&format!(" initial_capacity:={cap}")); }
+            if let StorageStrategy::Standard { initial_capacity, .. } = &mut cfg.storage_strategy { *initial_capacity = cap; d.push_str(&format!(" storage_capacity:={cap}")); } }
+        Conf::Dat(Some(cfg)) => { let cap = *c.rng.pick(HUGE_CAPS); cfg.initial_capacity = cap; d.push_str(&format!(" initial_capacity:={cap}")); }
+        Conf::Dawg(cfg, built) => { let dense = *built || (need <= 70_000 && !cfg.compressed_storage); cfg.compressed_storage = !dense; cfg.max_states = if dense { need } else { cfg.max_states.max(need) };
+            d = format!("DawgConfig rank_select={} cache={} compressed_storage={} max_states={}{}", cfg.use_rank_select, cfg.enable_cache, cfg.compressed_storage, cfg.max_states, if *built { " build_from_keys" } else { "" }); }
+        _ => {}
+    }
+    let mut sh = shape(t, true, false, &conf); if let Conf::DatBuilder(true) = conf { sh.init = 1; }
+    let mut p = p; if sh.init == 1 { p.init.sort(); p.init.dedup(); }
+    c.input_str("huge", fam); c.input_str("shape", &desc); record(c, &d, &p, sh); c.note(&format!("cost:{cost:?}"), 1);
+    let mut s = match build(c, conf, &p.init) { Ok(s) => s, Err(f) if f.oracle == "__refused" => return Ok(()), Err(f) => return Err(f) };
+    replay(c, s.as_mut(), &p, sh)
+}
+
 pub fn run(ctx: &mut Ctx) {
     // cases per (target class, generator kind, family)
     let n_ins = ctx.n(10, 250) as u64; let n_mix = ctx.n(14, 350) as u64; let n_wr = ctx.n(12, 300) as u64; let n_small = ctx.n(8, 200) as u64; let n_par = ctx.n(4, 60) as u64;
     for t in TARGETS { for name in DIRECTED.iter() { for rep in 0..(if t.id.contains("hand_") || t.id.starts_with("w/") || t.id.starts_with("dawg/nested") || t.id == "par/builder" { 3 } else { 1 }) { ctx.case(t.id, &format!("directed/{name}"), rep, |c| directed_case(c, t, name)); } } }
+    let n_huge = ctx.n(1, 12) as u64;
+    for t in TARGETS { for &hf in huge_fams(t.id) { for idx in 0..n_huge { ctx.case(t.id, hf, idx, |c| huge_case(c, t, hf)); } } }
     for fam in 0..FAMS {
         let f = fam_name(fam);
         for t in TARGETS {
